@@ -1,6 +1,8 @@
 #!/bin/bash
-# usage: tryseed.sh <patch> <prop>... ; applies the patch to /repo, runs the quick checks, restores /repo
+# usage: tryseed.sh <patch> <prop>... ; applies the patch to /repo, runs the quick checks, restores /repo.
+# Evidence and replays written while the change is applied are discarded (evidence must describe /repo itself).
 patch=$1; shift
+rm -rf /tmp/tryseed_keep && mkdir -p /tmp/tryseed_keep && cp -r /verif/evidence /tmp/tryseed_keep/evidence
 cd /repo && git apply "$patch" || { echo "PATCH DOES NOT APPLY"; exit 2; }
 (go build ./... && go test -count=1 ./... 2>&1 | grep -E "^(--- FAIL|ok|FAIL)")
 cd /verif
@@ -8,3 +10,6 @@ for p in "$@"; do
   /usr/bin/time -f "   ($p took %es)" ./check $p 2>&1 | grep -E "VIOLATION|OK property|broken|took|KNOWN" | cut -c1-260 | head -8
 done
 cd /repo && git checkout -- . && git status --short | head -3
+rm -rf /verif/evidence && cp -r /tmp/tryseed_keep/evidence /verif/evidence && rm -rf /tmp/tryseed_keep
+cd /verif && git status --short replays | grep '^??' | awk '{print $2}' | while read f; do
+  if [ -d "$f" ]; then for g in $f*; do grep -q "$(basename $g)" KNOWN_FINDINGS.txt || rm -f $g; done; rmdir $f 2>/dev/null; else grep -q "$(basename $f)" KNOWN_FINDINGS.txt || rm -f $f; fi; done
